@@ -276,3 +276,53 @@ Proof.
     { apply relay_parts. unfold len in L. lia. }
     rewrite <- K at 1. apply accepted_from_bytes.
 Qed.
+
+(* ---- the monitor in readable form ---- *)
+Definition accepted_prop (i : input) (key bs : bytes) (r : res obs) : Prop :=
+  match r with
+  | Ok o => ob_bytes o = bs /\ c_is_point i key = true /\
+            c_verify i key (signable (ts_of bs) (payload_of bs)) (sig_of bs) = true /\
+            c_dns_ok i (payload_of bs) = true /\ ob_key o = Ok key /\ obs_total o = true
+  | Err _ => True
+  | Panic => False
+  end.
+Definition inspect_prop (r : res obs) : Prop :=
+  match r with Ok o => obs_total o = true | Err _ => True | Panic => False end.
+
+Lemma res_bytes_eqb_ok (r : res bytes) k : res_eqb bytes_eqb r (Ok k) = true <-> r = Ok k.
+Proof.
+  destruct r as [a|e|]; cbn; split; intros H; try discriminate.
+  - apply bytes_eqb_eq in H. now subst.
+  - injection H as ->. apply bytes_eqb_refl.
+Qed.
+
+Lemma accepted_ok_spec i key bs r : accepted_ok i key bs r = true <-> accepted_prop i key bs r.
+Proof.
+  destruct r as [o|e|]; cbn [accepted_ok accepted_prop]; [|tauto|split; [discriminate | tauto]].
+  rewrite !andb_true_iff, res_bytes_eqb_ok. split.
+  - intros [[[[[H1 H2] H3] H4] H5] H6]. apply bytes_eqb_eq in H1. tauto.
+  - intros (H1 & H2 & H3 & H4 & H5 & H6). rewrite H1, bytes_eqb_refl. tauto.
+Qed.
+
+Lemma inspect_ok_spec r : inspect_ok r = true <-> inspect_prop r.
+Proof. destruct r; cbn; [tauto | tauto | split; [discriminate | tauto]]. Qed.
+
+Lemma monitor_spec i o :
+  len (in_key2 i) = 32 ->
+  (monitor i o = true <->
+   accepted_prop i (key_of (all_bytes i)) (all_bytes i) (r_from_bytes o) /\
+   inspect_prop (r_unchecked o) /\ inspect_prop (r_parts o) /\
+   (forall r, r_relay o = Some r -> accepted_prop i (key_of (all_bytes i)) (all_bytes i) r) /\
+   (forall r, r_relay2 o = Some r ->
+      accepted_prop i (in_key2 i) (in_key2 i ++ skipn 32 (all_bytes i)) r)).
+Proof.
+  intros L. unfold monitor. cbv zeta. rewrite !andb_true_iff, accepted_ok_spec, !inspect_ok_spec.
+  replace (len (in_key2 i) =? 32) with true by lia. cbn [negb orb].
+  split.
+  - intros [[[[H1 H2] H3] H4] H5]. repeat split; auto.
+    + intros r E. rewrite E in H4. now apply accepted_ok_spec.
+    + intros r E. rewrite E in H5. now apply accepted_ok_spec.
+  - intros (H1 & H2 & H3 & H4 & H5). repeat split; auto.
+    + destruct (r_relay o) as [r|]; [|reflexivity]. apply accepted_ok_spec. now apply H4.
+    + destruct (r_relay2 o) as [r|]; [|reflexivity]. apply accepted_ok_spec. now apply H5.
+Qed.
